@@ -579,6 +579,11 @@ def main():
     finally:
         if not a.keep:
             shutil.rmtree(workdir, ignore_errors=True)
+            try:
+                import replayers
+                replayers.cleanup()   # build/native/<pid>: the native replay / grid binaries of this run
+            except Exception:
+                pass
     return rc
 
 
